@@ -95,7 +95,7 @@ def r2(cx):
 def all_guards(f):
     w = lock_wrappers(f)
     res = []
-    for b in f.bodies.values():
+    for b in f.scan_bodies():
         for g in guard_regions(b, w):
             res.append(g)
     return res, w
